@@ -7,7 +7,11 @@ from enum import IntEnum
 from functools import wraps
 from typing import TYPE_CHECKING, Any
 
-from aiomysensors.exceptions import MissingChildError, MissingNodeError
+from aiomysensors.exceptions import (
+    InvalidMessageError,
+    MissingChildError,
+    MissingNodeError,
+)
 from aiomysensors.model.const import SYSTEM_CHILD_ID
 from aiomysensors.model.message import Message
 
@@ -228,9 +232,14 @@ class IncomingMessageHandler(IncomingMessageHandler15):
         if message.node_id not in gateway.nodes:
             raise MissingNodeError(message.node_id)
 
+        try:
+            heartbeat = int(message.payload)
+        except ValueError as err:
+            raise InvalidMessageError(err, message) from err
+
         node = gateway.nodes[message.node_id]
         node.sleeping = True
-        node.heartbeat = int(message.payload)
+        node.heartbeat = heartbeat
 
         return await cls._handle_sleep_buffer(gateway, message, message_buffer)
 
